@@ -27,7 +27,7 @@ RULE = (
     "RuntimeError accepted only when an exact/margin-separated classifier says none exists.  E3: for off-origin shapes every "
     "fault schedule of the retry loop (0..11 injected LinAlgError x every rotation sequence over a 2-element alphabet) and every "
     "pivot schedule of the real miniball with at most `bound` deviations from the default pivot is executed through the public "
-    "property; expected = the exact ball for < 10 failures, RuntimeError from 10.  non-trivial = execution with a non-default "
+    "property; expected = the exact ball for < 10 failures, RuntimeError from 10.  Also: placements at extreme sizes; every pivot order with <= 3 (thorough 4) deviations on 5-point lattice sets at sizes 1e-3 and 1e-6 (miniball's absolute tolerance).  non-trivial = execution with a non-default "
     "schedule or a non-identity placement."
 )
 ASSUMPTIONS = ["E3 owns miniball.random.choice, miniball.get_bounding_ball and rowan.random.rand (module attributes)", "in-ball existence classifier is margin-separated in floats (residual < 1e-10 L = exists, > 1e-3 L = none, otherwise skipped)"]
